@@ -865,3 +865,11 @@ seeded('seeded-RIC15-rrt-every-start-becomes-a-root', ['C15', 'C01', 'C02'], ['C
 seeded('seeded-RIC16-rrtconnect-step-floored-at-resolution', ['C16', 'C05'], ['C05.steer'])
 seeded('seeded-RIC17-rrtstar-rewire-skips-former-leaders', ['C17'], ['C17.rewire'])
 seeded('seeded-RIC18-prm-links-at-exactly-the-radius', ['C18'], ['C18.guards'])
+
+# benign round 47 (SO3StateSpace and the SO(2)/SO(3) state normalisers: the area of the rules of rounds 17-18)
+for _k in (1, 2, 3, 4, 5):
+    benign_patch('ben47-r%d' % _k, ['C04', 'C05', 'C06', 'C07', 'C08', 'C09', 'C10', 'C11', 'C12', 'C13', 'C14', 'C15'])   # quaternion_dot / angle_from_dot / renormalise helpers, validated_cone + draw_unit_quaternion, accessors + project_into_cone, normaliser helpers, ShortArc struct
+CASES.append({'name': 'ben47r1-angle-helper-loses-its-clamp', 'props': ['C10', 'C09'], 'expect': ['C10.domain'], 'patch': '/verif/selftest/benign/ben47-r1.diff',
+              'edits': [('oxmpl/src/base/spaces/so3_state_space.rs', '    let clamped_dot = abs_dot.min(1.0);\n    2.0 * clamped_dot.acos()', '    let clamped_dot = abs_dot;\n    2.0 * clamped_dot.acos()')]})
+CASES.append({'name': 'ben47r2-validated-cone-keeps-the-given-centre', 'props': ['C12'], 'expect': ['C12.centre'], 'patch': '/verif/selftest/benign/ben47-r2.diff',
+              'edits': [('oxmpl/src/base/spaces/so3_state_space.rs', '        Ok((unit_center, max_angle.min(PI)))', '        let _ = unit_center;\n        Ok((center_rotation, max_angle.min(PI)))')]})
